@@ -3,6 +3,7 @@ package main
 import (
 	"fmt"
 	"sort"
+	"strings"
 	"time"
 
 	"github.com/fufuok/cache/internal/vshim/sched"
@@ -85,6 +86,8 @@ type ExploreStats struct {
 	SampleHist   []string       `json:"sample_history,omitempty"`
 	ThreadSteps  []int          `json:"thread_steps,omitempty"`
 	Deterministic bool          `json:"determinism_checked"`
+	Fallback        string      `json:"fallback,omitempty"`
+	UnboundedStates int         `json:"unbounded_states_before_fallback,omitempty"`
 	OtherObs      int           `json:"observations_for_other_properties"` // oracle classes that belong to other properties failed (not counted here)
 }
 
@@ -93,6 +96,39 @@ type ExploreOpts struct {
 	MaxStates     int
 	MaxViolations int
 	NoCache       bool
+	FallbackBound int // preemption bound used when the unbounded search exceeds MaxStates (0 = no fallback)
+}
+
+// ExploreAuto explores without a preemption bound; if the state cap is hit it
+// falls back to exploring every schedule with at most FallbackBound preemptions.
+func ExploreAuto(sc *Scenario, opts ExploreOpts) *ExploreStats {
+	st := Explore(sc, opts)
+	if st.Exhaustive || opts.FallbackBound == 0 || len(st.Violations) > 0 || st.Infra != "" || sc.PreemptBound > 0 || !strings.HasPrefix(st.CapHit, "state cap") {
+		return st
+	}
+	sc2 := *sc
+	sc2.PreemptBound = opts.FallbackBound
+	o2 := opts
+	o2.MaxStates = 50_000_000
+	st2 := Explore(&sc2, o2)
+	st2.UnboundedStates = st.States
+	st2.States += st.States
+	st2.Transitions += st.Transitions
+	st2.Executions += st.Executions
+	st2.Complete += st.Complete
+	st2.Pruned += st.Pruned
+	st2.WallMs += st.WallMs
+	for k, v := range st.Outcomes {
+		st2.Outcomes[k] += v
+	}
+	if st.MaxDepth > st2.MaxDepth {
+		st2.MaxDepth = st.MaxDepth
+	}
+	if st.MaxPreempt > st2.MaxPreempt {
+		st2.MaxPreempt = st.MaxPreempt
+	}
+	st2.Fallback = fmt.Sprintf("unbounded search stopped at %d states; completed all schedules with <= %d preemptions instead", st.States, opts.FallbackBound)
+	return st2
 }
 
 const defaultMaxStates = 3_000_000
@@ -192,6 +228,9 @@ func Explore(sc *Scenario, opts ExploreOpts) *ExploreStats {
 	}
 	if maxStates == 0 {
 		maxStates = defaultMaxStates
+	}
+	if sc.PreemptBound > 0 && maxStates < 50_000_000 {
+		maxStates = 50_000_000 // a bounded search is finite by construction; only the deadline stops it
 	}
 	if opts.MaxViolations == 0 {
 		opts.MaxViolations = 3
